@@ -106,9 +106,10 @@ def tag_rec(c, facts, R, prefix_desc=''):
         return
     fns = recursive_tag_functions(facts)
     c.floor(R, 'self-recursive functions over Tag', len(fns), 3)
-    for need in ('occurs', 'unify', 'reduce'):
-        if not any(fn.qname.endswith('::' + need) for fn in fns):
-            c.bad(R, 'anchor-missing:recursive-' + need, 'no self-recursive function `%s` over Tag found in oal_compiler::inference' % need)
+    for need in ('oal_compiler::inference::unify::occurs', 'oal_compiler::inference::unify::unify', 'oal_compiler::inference::union::reduce'):
+        target = facts.fn(need)     # alias-aware: a renamed function with the same signature is accepted
+        if target is None or not any(fn.id == target.id for fn in fns):
+            c.bad(R, 'anchor-missing:recursive-' + need.split('::')[-1], 'no self-recursive function `%s` over Tag found in oal_compiler::inference' % need.split('::')[-1])
     for fn in fns:
         ctx = FnCtx(fn)
         # map binding hid -> (variant, field)
@@ -133,6 +134,10 @@ def tag_rec(c, facts, R, prefix_desc=''):
                         v, fld = bound[r]
                         covered.setdefault(v, set()).add(fld)
         short = fn.qname.split('::')[-1]
+        for orig in ('occurs', 'unify', 'reduce'):
+            t0 = facts.fn({'occurs': 'oal_compiler::inference::unify::occurs', 'unify': 'oal_compiler::inference::unify::unify', 'reduce': 'oal_compiler::inference::union::reduce'}[orig])
+            if t0 is not None and t0.id == fn.id:
+                short = orig
         for v, fields in sorted(nested.items()):
             got = covered.get(v, set())
             want = set(fields)
@@ -163,9 +168,10 @@ def occurs_before_union(c, facts, R):
         info = callee_of(t)
         if not info:
             continue
-        if info['def'].endswith('unify::occurs'):
+        import pathrules as P
+        if P.callee_matches(info, ['unify::occurs']):
             occ_sw.append((bi, t))
-        if info['def'].endswith('UnionFind::union'):
+        if P.callee_matches(info, ['UnionFind::union']):
             unions.append((bi, t))
     c.floor(R, 'union call sites in unify()', len(unions), 2)
     for ubi, ut in unions:
